@@ -590,7 +590,11 @@ static std::string run_script(const std::vector<std::string>& lines, std::ostrea
         if (op == "verchunk") { uint32_t n; in >> n; em.setDefaultArchetypeVersionChunkSize(n); }
         else if (op == "chunkfn") { // chunkfn <min> <max> <pals...>
             uint32_t mn, mx; in >> mn >> mx; ComponentIdMask m; SharedComponentsInfo sh; parse_pals(in, m, sh);
-            em.addChunkSizeFunction([mn, mx, m](const ComponentIdMask& am) noexcept { ArchetypeChunkSize r; if (am.isMatch(m)) { r.min = mn; r.max = mx; } return r; });
+            // one static type: through the typed convenience overload addChunkSizeFunction<T>(min, max)
+            int only = -1;
+            if (m.items().size() == 1 && sh.ids_.empty()) { const int pl = pal_of_cid(m.items()[0]); if (is_static(pl)) only = pl; }
+            if (only >= 0) with_static_type(only, [&](auto* t) { using T = typename std::remove_pointer<decltype(t)>::type; em.addChunkSizeFunction<T>(mn, mx); });
+            else em.addChunkSizeFunction([mn, mx, m](const ComponentIdMask& am) noexcept { ArchetypeChunkSize r; if (am.isMatch(m)) { r.min = mn; r.max = mx; } return r; });
         }
         else if (op == "dep") { int a; in >> a; do_register(a, 0); ComponentIdMask m; SharedComponentsInfo sh; parse_pals(in, m, sh); em.addDependency(d.cid[a], m); }
         else if (op == "arm") { arm(); }
